@@ -43,6 +43,24 @@ func (p *PIdent) Parse(lex *lexer.PeekingLexer) error {
 	return nil
 }
 
+// PNotB is a user-implemented production that takes one Ident token other than "b". Like much hand-written
+// code it scribbles on its receiver before it knows whether it matches (the receiver of a NextMatch is
+// thrown away by contract) and builds its result by appending. Model: `(?! "b") @Ident`.
+type PNotB struct {
+	F0 string
+}
+
+func (p *PNotB) Parse(lex *lexer.PeekingLexer) error {
+	t := lex.Peek()
+	if t.Type != IdentType || t.Value == "b" {
+		p.F0 = "rejected:" + t.Value
+		return participleNextMatch
+	}
+	p.F0 += t.Value
+	lex.Next()
+	return nil
+}
+
 // PosMixin is embedded into nodes to test position injection through embedded structs.
 type PosMixin struct {
 	Pos    lexer.Position
